@@ -873,10 +873,15 @@ func (st *state) plan(pk *packages.Package, x *fresh, id *ast.Ident, src func(*t
 		}
 		return true
 	})
+	var defers []*ast.DeferStmt // top-level deferred calls of the helper that are run explicitly at its exits
 	if asLiteral {
 		ordered = ""
 	} else if st.needFrame[x.key] {
-		return nil, nil, fmt.Errorf("%s at %s", ownFrame, where)
+		ds, why := simpleDefers(pk, x)
+		if why != "" {
+			return nil, nil, fmt.Errorf("%s (%s) at %s", ownFrame, why, where)
+		}
+		defers = ds
 	}
 	if ordered == "later" {
 		return nil, stmt, errLater
@@ -1041,6 +1046,14 @@ func (st *state) plan(pk *packages.Package, x *fresh, id *ast.Ident, src func(*t
 					walkBody(e.Body, true)
 					return false
 				}
+			case *ast.DeferStmt:
+				for _, d := range defers {
+					if d == e {
+						// run explicitly at the exits instead (see simpleDefers); the statement itself goes away
+						bes = append(bes, edit{htf.Offset(e.Pos()), htf.Offset(e.End()), ""})
+						return false
+					}
+				}
 			case *ast.LabeledStmt:
 				if asLiteral {
 					return true // a function literal has its own label scope
@@ -1083,12 +1096,13 @@ func (st *state) plan(pk *packages.Package, x *fresh, id *ast.Ident, src func(*t
 				}
 				usedLabel = true
 				ro := htf.Offset(e.Pos())
+				dc := deferredCalls(defers, e.Pos(), hbytes, htf)
 				if len(e.Results) == 0 {
-					bes = append(bes, edit{ro, ro + len("return"), "{ break " + label + " }"})
+					bes = append(bes, edit{ro, ro + len("return"), "{ " + dc + "break " + label + " }"})
 				} else {
 					bes = append(bes, edit{ro, ro + len("return"), "{ " + strings.Join(rtemps, ", ") + " ="})
 					eo := htf.Offset(e.End())
-					bes = append(bes, edit{eo, eo, "; break " + label + " }"})
+					bes = append(bes, edit{eo, eo, "; " + dc + "break " + label + " }"})
 				}
 			case *ast.Ident:
 				o := info.Uses[e]
@@ -1140,6 +1154,9 @@ func (st *state) plan(pk *packages.Package, x *fresh, id *ast.Ident, src func(*t
 	body, err := apply(append([]byte(nil), hbytes[bstart:bend]...), bes)
 	if err != nil {
 		return nil, nil, err
+	}
+	if len(defers) > 0 {
+		body = append(body, []byte("\n"+deferredCalls(defers, x.decl.Body.Rbrace, hbytes, htf))...)
 	}
 	var out strings.Builder
 	out.WriteString(pre.String())
@@ -1377,6 +1394,121 @@ func (st *state) planValue(pk *packages.Package, x *fresh, id *ast.Ident, path [
 		return nil, nil, err
 	}
 	return &plan{eds: eds, desc: fmt.Sprintf("%s -> function literal at its use as a value (%s:%d)", x.key, relFile(st.dir, where.Filename), where.Line)}, stmt, nil
+}
+
+// simpleDefers: a helper that uses defer can still be inlined at a plain call site when every defer is a
+// top-level statement of its body of the form "defer x.y.M()" (no arguments; x is the receiver or a parameter that
+// the body never re-assigns) and the body does not use recover: the deferred calls are then made explicitly, in
+// reverse order, at every exit of the copied body that lies after them (after the results were assigned, as the
+// language does). The copy differs from the tree only if the helper body panics — then the deferred calls do not
+// run in the copy; no rule of this checker reasons about panicking paths of such helpers.
+func simpleDefers(pk *packages.Package, x *fresh) ([]*ast.DeferStmt, string) {
+	info := pk.TypesInfo
+	var out []*ast.DeferStmt
+	why := ""
+	top := map[ast.Stmt]bool{}
+	for _, s := range x.decl.Body.List {
+		top[s] = true
+	}
+	assigned := map[types.Object]bool{}
+	ast.Inspect(x.decl.Body, func(n ast.Node) bool {
+		switch e := n.(type) {
+		case *ast.AssignStmt:
+			for _, l := range e.Lhs {
+				if id, ok := unparen(l).(*ast.Ident); ok {
+					if o := info.Uses[id]; o != nil {
+						assigned[o] = true
+					}
+				}
+			}
+		case *ast.UnaryExpr:
+			if id, ok := unparen(e.X).(*ast.Ident); ok && e.Op == token.AND {
+				if o := info.Uses[id]; o != nil {
+					assigned[o] = true
+				}
+			}
+		case *ast.CallExpr:
+			if id, ok := e.Fun.(*ast.Ident); ok && id.Name == "recover" {
+				if _, isB := info.Uses[id].(*types.Builtin); isB {
+					why = "uses recover"
+				}
+			}
+		}
+		return true
+	})
+	ast.Inspect(x.decl.Body, func(n ast.Node) bool {
+		if _, isLit := n.(*ast.FuncLit); isLit {
+			return false
+		}
+		d, ok := n.(*ast.DeferStmt)
+		if !ok {
+			return true
+		}
+		if !top[d] {
+			why = "a defer inside a nested statement"
+			return false
+		}
+		if len(d.Call.Args) != 0 {
+			why = "a deferred call with arguments"
+			return false
+		}
+		// x.y.M
+		var e ast.Expr = d.Call.Fun
+		depth := 0
+		for {
+			sel, isSel := e.(*ast.SelectorExpr)
+			if !isSel {
+				break
+			}
+			e = sel.X
+			depth++
+		}
+		root, isID := e.(*ast.Ident)
+		if !isID || depth == 0 {
+			why = "a deferred call that is not of the form x.y.M()"
+			return false
+		}
+		o, isVar := info.Uses[root].(*types.Var)
+		if !isVar || o.Parent() == pk.Types.Scope() || assigned[o] || !(o.Pos() >= x.decl.Pos() && o.Pos() < x.decl.Body.Lbrace) {
+			why = "the deferred call's receiver is not a parameter that stays unchanged"
+			return false
+		}
+		// the parameter's name must still mean the parameter at every later exit (no shadowing declaration)
+		ast.Inspect(x.decl.Body, func(m ast.Node) bool {
+			if _, isLit := m.(*ast.FuncLit); isLit {
+				return false
+			}
+			if r, isRet := m.(*ast.ReturnStmt); isRet && r.Pos() > d.Pos() {
+				if sc := pk.Types.Scope().Innermost(r.Pos()); sc != nil {
+					if _, ob := sc.LookupParent(root.Name, r.Pos()); ob != types.Object(o) {
+						why = "the deferred call's receiver is shadowed at a return"
+					}
+				}
+			}
+			return true
+		})
+		out = append(out, d)
+		return false
+	})
+	if why != "" {
+		return nil, why
+	}
+	if len(out) == 0 {
+		return nil, "uses recover"
+	}
+	return out, ""
+}
+
+// deferredCalls renders the calls deferred before pos, last first, as statements.
+func deferredCalls(defers []*ast.DeferStmt, pos token.Pos, src []byte, tf *token.File) string {
+	var b strings.Builder
+	for i := len(defers) - 1; i >= 0; i-- {
+		d := defers[i]
+		if d.Pos() < pos {
+			b.WriteString(oneLine(src[tf.Offset(d.Call.Pos()):tf.Offset(d.Call.End())]) + "; ")
+		}
+	}
+	return b.String()
 }
 
 // site resolves names at the place a helper's text is copied to.
